@@ -103,7 +103,7 @@ def model_value(model, term):
 class Config:
     def __init__(self, logic=None, feas_rlimit=20_000_000, ob_rlimit=200_000_000, max_decisions=400,
                  fresh_feas=False, ob_timeout_ms=0, feas_timeout_ms=0, max_cex_per_ob=6, max_paths=None,
-                 max_alternatives=48):
+                 max_alternatives=48, soft_alternatives=0):
         self.logic = logic
         self.feas_rlimit = feas_rlimit
         self.ob_rlimit = ob_rlimit
@@ -114,6 +114,7 @@ class Config:
         self.max_cex_per_ob = max_cex_per_ob
         self.max_paths = max_paths
         self.max_alternatives = max_alternatives
+        self.soft_alternatives = soft_alternatives    # extra diverse models requested for each soft counterexample
 
 
 def _mk_solver(logic, rlimit, timeout_ms=0):
@@ -139,6 +140,8 @@ class Run:
         self.fresh_n = itertools.count()
         self.model = None     # a model of the current path condition, if known
         self.notes = {}       # free-form per-path info set by harness/shims
+        self.approx = None    # set (to a description) when the path used a rounding-dependent model choice:
+                              # counterexamples on it are 'soft' (believed only when they replay on the real code)
         self._inc = None
         if not self.cfg.fresh_feas:
             self._inc = _mk_solver(self.cfg.logic, self.cfg.feas_rlimit, self.cfg.feas_timeout_ms)
@@ -391,7 +394,7 @@ class Run:
             return "unsat", None
         return "unknown", None
 
-    def prove(self, name, claim, info=None, exclude=(), logic=None, rlimit=None, hints=(), soft=False):
+    def prove(self, name, claim, info=None, exclude=(), logic=None, rlimit=None, hints=(), soft=False, record_cex=True):
         """Obligation: under the path condition, claim holds for all values.
         exclude: list of (finding_id, z3 predicate over the inputs) - known findings; counterexamples
         are searched first inside each excluded region (reported with their id) and then outside all."""
@@ -403,6 +406,10 @@ class Run:
         if claim is False:
             claim = z3.BoolVal(False)
         d = self.stats.ob_names.setdefault(name, {"unsat": 0, "sat": 0, "unknown": 0})
+        if self.approx:
+            soft = True
+            if rlimit is None:
+                rlimit = min(self.cfg.ob_rlimit, 30_000_000)    # rounding-dependent path: decided by replay, not by effort
         neg = z3.Not(claim)
         extra = [neg] + list(hints)
         regions = [(None, [z3.Not(p) for (_fid, p) in exclude])]
@@ -428,15 +435,18 @@ class Run:
                 d["sat"] += 1
                 verdict = "sat"
                 n_same = sum(1 for c in self.stats.cex if c["obligation"] == name and c.get("finding") == fid)
-                if n_same < self.cfg.max_cex_per_ob:
+                if record_cex and n_same < self.cfg.max_cex_per_ob:
                     vals = {}
                     for k, v in self.inputs.items():
                         x = model_value(m, v)
                         vals[k] = x if isinstance(x, (int, bool)) else str(x)
-                    self.stats.cex.append({"obligation": name, "finding": fid, "inputs": vals,
-                                           "info": info, "case": self.ex.case_label, "soft": soft,
-                                           "notes": {k: v for k, v in self.notes.items() if not k.startswith("_")},
-                                           "decisions": list(self.decisions)})
+                    cex = {"obligation": name, "finding": fid, "inputs": vals,
+                           "info": info, "case": self.ex.case_label, "soft": soft,
+                           "notes": {k: v for k, v in self.notes.items() if not k.startswith("_")},
+                           "decisions": list(self.decisions)}
+                    if soft and self.cfg.soft_alternatives and n_same < 2:
+                        cex["alternatives"] = self._alternatives(extra + reg, vals, logic, rlimit)
+                    self.stats.cex.append(cex)
             else:
                 self.stats.ob_unknown += 1
                 d["unknown"] += 1
@@ -446,6 +456,36 @@ class Run:
                     self.stats.unknowns.append({"obligation": name, "case": self.ex.case_label,
                                                 "decisions": list(self.decisions)})
         return verdict
+
+    def _alternatives(self, extra, first, logic, rlimit):
+        """Further models of a soft counterexample query, each differing from all earlier ones in every
+        integer input that can differ (falling back to 'some input differs').  Whether a rounding-dependent
+        counterexample shows on the real code depends on the direction of the actual rounding error, which
+        the model leaves open; several diverse candidates are replayed and one reproduction is enough."""
+        out, seen = [], [first]
+        t_end = time.time() + 20
+        ivars = [(k, v) for k, v in self.inputs.items() if z3.is_int(v)]
+        for _ in range(self.cfg.soft_alternatives):
+            strong = [v != z3.IntVal(int(s[k])) for s in seen for k, v in ivars if isinstance(s.get(k), int) and not isinstance(s.get(k), bool)]
+            weak = [z3.Or([v != z3.IntVal(int(s[k])) for k, v in ivars if isinstance(s.get(k), int) and not isinstance(s.get(k), bool)] or [z3.BoolVal(False)])
+                    for s in seen]
+            got = None
+            for block in (strong, weak):
+                if time.time() > t_end:
+                    break
+                r, m = self.check_sat(list(extra) + block, logic=logic, rlimit=min(rlimit or self.cfg.ob_rlimit, 10_000_000))
+                if r == "sat":
+                    got = m
+                    break
+            if got is None:
+                break
+            vals = {}
+            for k, v in self.inputs.items():
+                x = model_value(got, v)
+                vals[k] = x if isinstance(x, (int, bool)) else str(x)
+            seen.append(vals)
+            out.append(vals)
+        return out
 
 
 class Explorer:
